@@ -239,7 +239,12 @@ def c10(tier):
     for i in range(max(40, n // 8)):
         kind = i % 4
         if kind == 0:        # a catalogue circle, with a label (also wide) right or left of it
-            special.append("\n".join(cat[r.choice([0, 1, 0, 1] + list(range(2, 22)))]))
+            D = cat[r.choice([0, 1, 0, 1] + list(range(2, 22)))]
+            if i % 8 == 0:
+                # two circles touching each other: one span with two catalogue matches
+                wd = max(len(x) for x in D)
+                D = [x.ljust(wd) + x for x in D]
+            special.append("\n".join(x.rstrip() for x in D))
         elif kind == 1:      # rows ending in double-width characters
             special.append("\n".join(gen.random_grid(r, r.randint(1, 5), 1, "ab-|+ ", 0.7) + r.choice(gen.WIDE) for _ in range(r.randint(1, 4))))
         elif kind == 2:      # balanced quoted strings, also with combining / zero-width characters inside
@@ -277,9 +282,20 @@ def c10(tier):
                 a = "\n" * r.choice([r.randint(1, 4), max(hb - 1, 1), max(hb - ha, 1)]) + a
             else:
                 b = "\n" * r.choice([r.randint(1, 4), max(ha - 1, 1), max(ha - hb, 1)]) + b
+        side = r.random() < 0.6
+        if not side and r.random() < 0.5:
+            # stacked: the lower part moved right, so that its first cell stands one column after the upper part's
+            # last cell (or anywhere)
+            la = [x for x in a.split("\n") if x.strip()]
+            fb = [x for x in b.split("\n") if x.strip()]
+            if la and fb:
+                want = dcols(la[-1].rstrip()) - (len(fb[0]) - len(fb[0].lstrip(" ")))
+                sh = r.choice([want, want, r.randint(0, 12)])
+                if sh > 0:
+                    b = "\n".join(" " * sh + x if x else x for x in b.split("\n"))
         ra, rb = a.split("\n"), b.split("\n")
         gap = r.choice([1, 1, 2, 3])
-        if r.random() < 0.6:
+        if side:
             ra_s = [x.rstrip(" \t") for x in ra]
             at = max(dcols(x) for x in ra_s) + gap
             h = max(len(ra), len(rb))
@@ -548,17 +564,29 @@ def c12(tier):
             extra.append(gen.box(w, 1) + "\n" + " " * r.randint(0, 14) + '"' + r.choice(gen.WIDE) * r.randint(1, 3) + '"')
         elif kind == 3:
             extra.append(gen.random_grid(r, w, 2, "ab-|+ ", 0.6) + "\n" + r.choice(LEGENDS))
+        elif kind == 4 and i % 12 == 4:
+            # a zero-width or combining character as the right-most thing (it occupies a cell of its own)
+            extra.append(gen.random_grid(r, w, r.randint(1, 3), "ab-|+ ", 0.5) + r.choice(["e\u0301", "ab\u200b", "|x\u0308", "\u200d", "o\ufe0f"]))
         elif kind == 4:
             extra.append("\n" * r.randint(0, 3) + " " * r.randint(0, 5) + r.choice(["_", ".", "'", "/", "\\", "(", ")", "*", "o", "#", "v", "^", "┌", "╯"]))
         else:
             extra.append("")
+    # shapes tangent to the top / left border of the page (no margin there): catalogue circles and circle glyphs at
+    # the origin, also at scales where a radius is not a whole number
+    cat12 = _json.load(open(os.path.join(common.ROOT, "verifpy", "catalogue.json"), encoding="utf-8"))
+    for i in range(22):
+        extra.append("\n".join(cat12[i]))
+    extra += ["○", "●--", "⊕", "O", "(_)\n", "*-", "o"]
     texts = gen.dedup(corpus + extra + ["", " ", "\n\n", "a"])
     cases = []
     for i, t in enumerate(texts):
         if i % 5 == 3:
-            cases.append({"input": t, "entry": "settings", "settings": {"scale": r.choice([0.5, 37.5])}})
+            cases.append({"input": t, "entry": "settings", "settings": {"scale": r.choice([0.5, 37.5, 3, 12.5])}})
         else:
             cases.append({"input": t})
+    for t in extra[-29:]:
+        for sc in (3, 12.5, 37.5):
+            cases.append({"input": t, "entry": "settings", "settings": {"scale": sc}})
     obs = observe.observe(cases, tag="C12B")
     for c, o in zip(cases, obs):
         run.add_event({"props": ["C12", "C12x"], "rows": o["rows"], "doc": o["doc"]},
@@ -632,6 +660,26 @@ def c09(tier):
                       {"input": t, "run": info})
     run.samples.append({"input": runs[5][0], "run": runs[5][1]})
     corpus = gen.mixed_corpus(r, n)
+    # characters that stroke along an edge of their cell: a bottom-edge character above a top-edge one (and a
+    # right-edge character left of a left-edge one) draw on the same line from two different rows (columns)
+    for i in range(n // 8):
+        alpha = r.choice(["_‾¯ ", "_‾ ", "_‾¯□ ", "▏▕ ", "▏▕|_‾ ", "_‾-= "])
+        corpus.append(gen.random_grid(r, r.randint(3, 10), r.randint(2, 4), alpha, r.choice([0.5, 0.8])))
+    # ... and the same deliberately: a run of one kind with a few characters of the other kind above / below it (left /
+    # right of it), inside the run's extent, at its ends and beyond
+    for i in range(max(60, n // 10)):
+        L = r.randint(3, 14)
+        top, bot = r.choice([("_", "‾"), ("_", "¯"), ("□", "‾")])
+        if i % 2 == 0:
+            upper = [" "] * (L + 2)
+            for _ in range(r.randint(1, 3)):
+                upper[r.randrange(L + 2)] = top
+            corpus.append("".join(upper).rstrip() + "\n" + " " * r.randint(0, 1) + bot * L)
+        else:
+            lower = [" "] * (L + 2)
+            for _ in range(r.randint(1, 3)):
+                lower[r.randrange(L + 2)] = bot
+            corpus.append(" " * r.randint(0, 1) + top * L + "\n" + "".join(lower).rstrip())
     # large structured inputs: many groups open between two pieces of one run
     big = []
     for i in range(12 if tier == "quick" else 200):
@@ -679,6 +727,11 @@ def c04(tier):
         words = ["".join(r.choice(gen.LABELS[:10] + (gen.LATIN + gen.CYRIL if i % 3 == 0 else "")) for _ in range(r.randint(1, 4)))
                  for _ in range(r.randint(2, 6))]
         texts.append(gen.scene(r, words))
+    # words in and around catalogue circles and arcs that stand away from the origin, alone or with a stroke, a box
+    # or a second circle attached (the drawing is matched together with other cells of its span)
+    for i in range(n // 4):
+        words = ["".join(r.choice(gen.LABELS[:10]) for _ in range(r.randint(1, 3))) for _ in range(r.randint(1, 3))]
+        texts.append(gen.catalogue_scene(r, words))
     observe_events(run, gen.dedup(texts), ["C04"], "random-labels")
     # rows that also contain quoted strings (content without quote, backslash, braces)
     qtexts = []
@@ -914,9 +967,14 @@ PLANS.update({"C15": c15, "C08": c08, "C02": c02})
 # ------------------------------------------------------------------------------------------
 def gen_box(r, w, h, k, n, kind):
     """kind: sharp | round | round2 | uni | uniround; random edge styles and side stretches"""
+    mix = kind.endswith("_mix")          # corners of one alphabet, edges and sides of either (chosen independently)
+    kind = kind.replace("_mix", "")
     ascii_ = kind in ("sharp", "round", "round2")
     tl, tr, bl, br = {"sharp": "++++", "round": "..''", "round2": ",.`'", "uni": "┌┐└┘", "uniround": "╭╮╰╯"}[kind]
-    hz_opts = ["-", "~"] if ascii_ else ["─", "┄"]
+    hz_ascii = r.random() < 0.5 if mix else ascii_
+    hz_opts = ["-", "~"] if hz_ascii else ["─", "┄"]
+    if mix:
+        ascii_ = r.random() < 0.5        # from here on: the alphabet of the two sides
     style = r.choice(["solid", "solid", "dash_h", "dash_v", "mixed", "only_top", "only_bottom", "only_left", "only_right"])
     hz_calls = [0]
 
@@ -1012,7 +1070,7 @@ def c05(tier):
     res = run.model("MC_Doc", cfg)
     replay_models(run, [res], ["C05s"])
     run.validate()
-    kinds = ["sharp", "round", "round2", "uni", "uniround"]
+    kinds = ["sharp", "round", "round2", "uni", "uniround", "sharp_mix", "round_mix", "uni_mix", "uniround_mix"]
     boxes = []
     if tier == "quick":
         sizes = [(w, h) for w in list(range(0, 9)) + [12, 16] for h in [0, 1, 2, 3, 5, 8]]
@@ -1331,7 +1389,12 @@ def rand_ident(r, maxlen=8):
 
 def rand_decl(r):
     alpha = "abcfilstroke:;#0123456789 -.,()%\"'\n\t<>&!/*@"
-    return "".join(r.choice(alpha) for _ in range(r.randint(0, 30)))
+    d = "".join(r.choice(alpha) for _ in range(r.randint(0, 30)))
+    if r.random() < 0.3:
+        # text that looks like an entity or a character reference is ordinary declaration text
+        j = r.randint(0, len(d))
+        d = d[:j] + r.choice(["&amp;", "&lt;", "&gt;", "&quot;", "&#39;", "&#x41;", "&nbsp;", "&amp;amp;"]) + d[j:]
+    return d
 
 
 def clsmap_of(doc):
@@ -1351,10 +1414,16 @@ def nested_boxes(r, depth):
     tagtxt = "{" + ",".join(names) + "}"
     inner_w = max(inner_w, len(tagtxt) + 2)
     label = r.choice(["", "abc", "Hello", "x1"])
-    lines = [(" " + tagtxt).ljust(inner_w)]
-    tag_pos = [(0, 1, names)]          # (row, col) relative to the content block
+    # where the tag stands in the innermost box: one blank from the left wall, flush left, flush right, or filling the
+    # box from wall to wall
+    place = r.choice(["in", "in", "left", "right", "tight"])
+    if place == "tight":
+        inner_w = len(tagtxt)
+    c_tag = {"in": 1, "left": 0, "tight": 0, "right": inner_w - len(tagtxt)}[place]
+    lines = [(" " * c_tag + tagtxt).ljust(inner_w)]
+    tag_pos = [(0, c_tag, names)]          # (row, col) relative to the content block
     if label:
-        lines.append((" " + label).ljust(inner_w))
+        lines.append((" " + label).ljust(inner_w)[:inner_w])
     block = lines
     for d in range(depth):
         style = r.choice(["sharp", "round", "round2", "uni"])
